@@ -86,8 +86,15 @@ func helperFieldResult(v ssa.Value) (string, bool) {
 	if call == nil {
 		return "", false
 	}
-	h := privateHelperOf(&call.Call)
-	if h == nil || h.Signature.Recv() == nil || len(call.Call.Args) == 0 || len(h.Params) == 0 {
+	// any unexported method with a body will do (it may have several callers: what is read is its own returns)
+	if call.Call.IsInvoke() {
+		return "", false
+	}
+	h, _ := call.Call.Value.(*ssa.Function)
+	if h == nil || len(h.Blocks) == 0 || h.Signature.Recv() == nil || len(call.Call.Args) == 0 || len(h.Params) == 0 {
+		return "", false
+	}
+	if obj, ok := h.Object().(*types.Func); !ok || obj.Exported() {
 		return "", false
 	}
 	if _, isParam := call.Call.Args[0].(*ssa.Parameter); !isParam {
